@@ -5,6 +5,7 @@ import (
 	"encoding/json"
 	"errors"
 	"fmt"
+	"io"
 	"strings"
 	"sync"
 
@@ -28,6 +29,7 @@ type faultWriter struct {
 	errs     int // errors returned during the current API call
 	silent   int // contract-violating short writes (nil error) during the current API call
 	idle     int
+	lastErr  error // the error of the most recent failing answer
 	notPfx   bool
 	pfxMsg   string
 	contract bool // offer only contract-abiding answers
@@ -40,10 +42,11 @@ func (w *faultWriter) Write(p []byte) (int, error) {
 		panic(spinPanic{})
 	}
 	type ans struct {
-		k   int
-		err bool
+		k     int
+		err   bool
+		short bool // the error is io.ErrShortWrite, what a well-behaved writer returns for a short write
 	}
-	var alts [8]ans
+	var alts [12]ans
 	na := 0
 	add := func(k int, err bool) {
 		for i := 0; i < na; i++ {
@@ -51,7 +54,7 @@ func (w *faultWriter) Write(p []byte) (int, error) {
 				return
 			}
 		}
-		alts[na] = ans{k, err}
+		alts[na] = ans{k: k, err: err}
 		na++
 	}
 	n := len(p)
@@ -61,6 +64,12 @@ func (w *faultWriter) Write(p []byte) (int, error) {
 		add(1, true)
 		add(n-1, true)
 		add(n, true)
+		if n >= 2 {
+			alts[na] = ans{k: n - 1, err: true, short: true}
+			na++
+			alts[na] = ans{k: 1, err: true, short: true}
+			na++
+		}
 		if !w.contract {
 			add(0, false)
 			add(1, false)
@@ -85,13 +94,19 @@ func (w *faultWriter) Write(p []byte) (int, error) {
 	}
 	if a.err {
 		w.errs++
-		return a.k, errScriptedWriter
+		w.lastErr = errScriptedWriter
+		if a.short {
+			w.lastErr = io.ErrShortWrite
+		}
+		return a.k, w.lastErr
 	}
 	if a.k < n {
 		w.silent++
 	}
 	return a.k, nil
 }
+
+func isWriterErr(err error) bool { return err == errScriptedWriter || err == io.ErrShortWrite }
 
 // FOp is one operation of a decoder script.
 type FOp struct {
@@ -211,11 +226,11 @@ func (r *faultRun) run(c *engine.Chooser) (refused bool) {
 			r.fail(name+"|not-prefix", "%s", w.pfxMsg)
 			return true
 		}
-		if w.errs > 0 && err != errScriptedWriter {
+		if w.errs > 0 && err != w.lastErr {
 			r.fail(name+"|error-not-surfaced", "the writer returned an error during %s but the call returned %v", name, err)
 			return true
 		}
-		if w.errs == 0 && err == errScriptedWriter {
+		if w.errs == 0 && isWriterErr(err) {
 			r.fail(name+"|phantom-error", "%s returned the writer's error although the writer did not fail during the call", name)
 			return true
 		}
@@ -262,7 +277,7 @@ func (r *faultRun) run(c *engine.Chooser) (refused bool) {
 				if err == nil {
 					break
 				}
-				if err != errScriptedWriter {
+				if !isWriterErr(err) {
 					if isSizeRefusal(err) {
 						return true
 					}
@@ -296,7 +311,7 @@ func (r *faultRun) run(c *engine.Chooser) (refused bool) {
 					}
 					break
 				}
-				if err != errScriptedWriter {
+				if !isWriterErr(err) {
 					if isSizeRefusal(err) {
 						return true
 					}
@@ -321,7 +336,7 @@ func (r *faultRun) run(c *engine.Chooser) (refused bool) {
 					checkOff("WriteByte")
 					break
 				}
-				if err != errScriptedWriter {
+				if !isWriterErr(err) {
 					r.fail("WriteByte|error", "WriteByte returned %v", err)
 					return
 				}
@@ -351,7 +366,7 @@ func (r *faultRun) run(c *engine.Chooser) (refused bool) {
 		if err == nil && w.silent == 0 {
 			break
 		}
-		if err != nil && err != errScriptedWriter {
+		if err != nil && !isWriterErr(err) {
 			r.fail("Flush|error", "Flush returned %v", err)
 			return
 		}
@@ -479,8 +494,52 @@ func faultShards(prop string) func(tier string) []engine.Shard {
 				})
 			}
 		}
+		// one large geometry: flushes of more than 64 KiB (a writer fault in the middle of a large flush, literal runs
+		// written in parts, a match longer than 64 KiB)
+		for _, contract := range []bool{true} {
+			contract := contract
+			shards = append(shards, engine.Shard{
+				Name: fmt.Sprintf("%s/large-W8-B200000-contract%v", prop, contract),
+				Run: func(st *engine.Stats, col *engine.Collector) {
+					r := &faultRun{st: st, col: col, prop: prop, W: 8, B: 200000, contract: contract, outcomes: map[uint64]struct{}{}}
+					for _, s := range largeFaultStreams() {
+						s := s
+						r.s = &s
+						for variant := 0; variant < 2; variant++ {
+							r.var_ = variant
+							r.ops = makeScript(&s, variant)
+							clear(r.outcomes)
+							ex, pts := engine.Explore(2, func(c *engine.Chooser) { r.run(c) })
+							st.Points += pts
+							st.Add("execs_large_streams", ex)
+							st.Nontrivial++
+							st.Outcomes += int64(len(r.outcomes))
+							st.States += int64(len(r.outcomes))
+						}
+					}
+				},
+			})
+		}
 		return shards
 	}
+}
+
+// largeFaultStreams: a literal block of 150 000 bytes followed by a match of 70 000 bytes and trailing literals,
+// and the same with the literals split over three blocks.
+func largeFaultStreams() []Stream {
+	lits := make([]byte, 150000)
+	for i := range lits {
+		lits[i] = 'a' + byte((i*i+i/7)%23)
+	}
+	a := []lz.Block{{Literals: lits}, {Sequences: []lz.Seq{{LitLen: 2, MatchLen: 70000, Offset: 5}}, Literals: []byte("xyz")}}
+	b := []lz.Block{{Literals: lits[:70000]}, {Literals: lits[70000:140000]}, {Sequences: []lz.Seq{{LitLen: 0, MatchLen: 66000, Offset: 3}}, Literals: lits[140000:]}}
+	var out []Stream
+	for i, blocks := range [][]lz.Block{a, b} {
+		if s, ok := finishStream(fmt.Sprintf("large synthetic stream %d", i), 8, blocks); ok {
+			out = append(out, s)
+		}
+	}
+	return out
 }
 
 func replayFault(prop string, raw json.RawMessage, col *engine.Collector) error {
